@@ -86,6 +86,17 @@ Definition is_error_reply (r : bytes) (unique n : N) : bool :=
 
 Definition valid_errno (n : N) : bool := (1 <=? n) && (n <=? 4095).
 
+(* The errno that stands for an io::ErrorKind which carries no OS code (the contract of the crate's public
+   encode_io_error_kind, the inverse of std's decode_error_kind on the kinds it keeps): written here by hand,
+   NOT translated from the source, so that a changed table in the source is a reply that no longer carries what
+   the filesystem returned.  Kind codes as in Model/Server.v: 0 PermissionDenied 1 NotFound 2 Interrupted
+   3 AlreadyExists 4 WouldBlock, anything else -> EIO. *)
+Definition kind_errno (k : N) : N :=
+  match k with
+  | 0 => 13 (* EACCES *) | 1 => 2 (* ENOENT *) | 2 => 4 (* EINTR *) | 3 => 17 (* EEXIST *) | 4 => 11 (* EAGAIN *)
+  | _ => 5 (* EIO *)
+  end.
+
 (* reply [r] (a whole message) answers request [q] with the filesystem result [fs] *)
 Definition reply_ok (q : wfreq) (minor : N) (fs : fsres) (r : bytes) : bool :=
   let u := q_unique q in
@@ -94,9 +105,8 @@ Definition reply_ok (q : wfreq) (minor : N) (fs : fsres) (r : bytes) : bool :=
   let op := q_op q in
   match fs with
   | FErr (Os n) => is_error_reply r u n
-  | FErr (Kind _) => (* kinds without an OS code: some valid errno *)
-    (hdr_len r =? 16) && (blen r =? 16) && (hdr_unique r =? u) &&
-    valid_errno (neg32 (hdr_err r))
+  | FErr (Kind k) => (* kinds without an OS code: the errno that stands for the kind *)
+    is_error_reply r u (kind_errno k)
   | FUnit => okhdr && (blen b =? 0)
   | FEntry e =>
     if (op =? 1) && (minor <? 4) && (e_inode e =? 0) then is_error_reply r u 2
